@@ -19,6 +19,8 @@ def gen_decl(rng, kinds=("expect", "expect", "expect", "always", "never"), times
         for p in range(ARITY[f]):
             if rng.random() < 0.35:
                 toks.append("w%d:%s:%d" % (p, rng.choice(["eq", "eq", "ne", "lt", "gt"]), rng.choice([0, 1, 2, 3])))
+        if ARITY[f] < 3 and rng.random() < 0.07:      # a clause naming a parameter the mock does not pass
+            toks.append("w%d:%s:%d" % (rng.randrange(ARITY[f], 3), rng.choice(["eq", "ne"]), rng.choice([0, 1])))
     if k != "never" and f < fns - 1 and rng.random() < side:
         g = rng.choice([x for x in range(fns) if x > f])      # callbacks only call "later" functions: no mutual recursion in the test program
         toks.append("s%d:%s" % (g, ",".join(str(rng.choice([0, 1, 2, 3])) for _ in range(ARITY[g]))))
@@ -61,7 +63,8 @@ def gen_long_history(rng, n):
 def run_impl_ops(exe, blocks, env=None, timeout=300):
     inp = "".join("\n".join(b) + "\n---\n" for b in blocks)
     r = subprocess.run([exe], input=inp.encode(), stdout=subprocess.PIPE, stderr=subprocess.PIPE, env=env, timeout=timeout)
-    out = r.stdout.decode("latin-1")
+    # the probe's functions are called f0, f1, f1_b, f1_bc (prefixes of one another); the protocol numbers them f0..f3
+    out = r.stdout.decode("latin-1").replace("(f1_bc,", "(f3,").replace("(f1_b,", "(f2,")
     res, cur = [], []
     for l in out.split("\n"):
         if l == "---":
